@@ -1873,14 +1873,11 @@ impl ReManager {
             BaseRegLan::Empty => false,
             BaseRegLan::Epsilon => false,
             BaseRegLan::Range(set) => set.contains(c),
-            BaseRegLan::Concat(e1, e2) => {
-                self.start_char(e1, c) || e1.nullable && self.start_char(e2, c)
-            }
             BaseRegLan::Loop(e, _) => self.start_char(e, c),
-            BaseRegLan::Inter(args) => args.iter().all(|x| self.start_char(x, c)),
             BaseRegLan::Union(args) => args.iter().any(|x| self.start_char(x, c)),
-            BaseRegLan::Complement(_) => {
-                // expensive case
+            BaseRegLan::Concat(..) | BaseRegLan::Inter(_) | BaseRegLan::Complement(_) => {
+                // expensive case: the operands do not tell whether the
+                // combination has a member that starts with c
                 let d = self.deriv(e, c);
                 !self.is_empty_re(d)
             }
